@@ -135,6 +135,21 @@ func c11Run(c c11Case) (out Outcome) {
 			if o.fam < len(block) {
 				block[o.fam] = byte(m.Value)
 			}
+		case "kvwrap":
+			// move m.Value from the key length to the value length (or back): the two fields
+			// still add up to the key-value length modulo 2^32, but not as integers
+			if o.val+4 <= len(block) {
+				k := binary.BigEndian.Uint32(block[o.key:])
+				v := binary.BigEndian.Uint32(block[o.val:])
+				d := uint32(m.Value)
+				if m.Index%2 == 0 {
+					k, v = k-d, v+d
+				} else {
+					k, v = k+d, v-d
+				}
+				binary.BigEndian.PutUint32(block[o.key:], k)
+				binary.BigEndian.PutUint32(block[o.val:], v)
+			}
 		case "cbflip":
 			if len(block) > 0 {
 				block[((m.Pos%len(block))+len(block))%len(block)] = byte(m.Value)
@@ -533,7 +548,7 @@ func c11MutateMulti(mr *pb.MultiResponse, muts []c11Mut) {
 	}
 }
 
-var c11CellFields = []string{"kvlen", "keylen", "vallen", "rowlen", "famlen", "cbflip", "cbtrunc"}
+var c11CellFields = []string{"kvlen", "keylen", "vallen", "rowlen", "famlen", "cbflip", "cbtrunc", "kvwrap", "kvwrap"}
 var c11FrameFields = []string{"cbmeta", "callid", "exc", "nomsg", "flip", "trunc", "sizefield", "blocklen", "chunklen", "assoc"}
 var c11ScanFields = []string{"cpr", "cpr-add", "cpr-del", "pfr-add", "pfr-del"}
 var c11MultiFields = []string{"mindex", "mnoindex", "mneither", "mboth", "mexc", "massoc", "mregions", "mregionexc", "mdup", "mdrop"}
